@@ -55,6 +55,16 @@ CHECKS = {
    text="Schema.doc_table documents, for all ~210 defined factory signatures, the accessor under which each operand must read back. Properties_C02.v proves on the regenerated tables: every factory of the current source has a row; every operand is documented under some accessor; wherever the translator could read the body (make(farm,args).with_type(t) / farm.make(args)) the slot each documented accessor resolves to (through the CURRENT header's forwarding) holds the documented operand, and therefore for EVERY argument tuple the built node reads back what the documentation says, absent Optionals reading absent. The sweep calls every factory with two fully distinguishable tuples, absent optionals, equal operands and seeded random tuples and compares every documented accessor (about 6000 values quick) and every modelled constructor slot with the implementation.",
    note="Trusted: Coq kernel, the AST translator (fails closed: unreadable bodies are 'opaque' and covered by the sweep only), extraction, fsweep driver (generated), ASan/UBSan. Modelled by hand: the constructor slot order of the implementation classes that have their own constructor (Schema.ctor_slots), and the documentation table itself (the specification). Builders reached through members (param, add_member, declare_*) are covered by C07/C12.",
    ref="DESIGN.md §6 C02"),
+ "C09": dict(
+   technique="Coq proof: a prescription table (one typing rule per node category) checked by vm_compute against the body of every type() member function and the class-to-category resolution, both re-translated from the clang AST on every run; interpretation theorems over any heap of nodes; sweep of every factory, zoo of all categories and growing sequences under ASan compared with the rules and the extracted model",
+   text="Typing.prescribed gives all 146 typed categories a rule (fixed constant, first operand, type of a designated sub-node, stored at construction, declaration type, product of members). Properties_C09.v proves on the regenerated tables that the type() body a node of each category runs reads exactly the prescribed rule (through the current header's accessor forwarding), that every class defining type() is accounted for, that every typed category is prescribed; and for every heap: kind-fixed types are independent of operands, borrowed types equal the designated sub-node's type and are refused when it is unset, cast/literal types are the first operand, constructed types are what was given, and the type of a sequence node after any addition is the product of its current members' types. Dynamically: type() of ~1000 factory results and 200 zoo nodes is judged by rule; scopes, parameter lists, base lists, enumerations and expression lists are grown and re-read after every addition, also through a reference obtained before the first addition.",
+   note="Trusted: Coq kernel, AST translator incl. the walk that finds the class providing type() (fails closed), extraction, drivers, ASan. kind_fixed/cast_literal theorems hold by definition of the interpreter; their weight is in rules_match_source. Symbolic constants' types (void/bool/nullptr) are C13's.",
+   ref="DESIGN.md §6 C09"),
+ "C14": dict(
+   technique="Coq proof over an outcome algebra (value / refused / undefined) with the access discipline of the current source regenerated from the clang AST (safeguards of every Sequence::get body; every pointer dereference in a const member function that is not under util::check, matched against an explicit non-null-by-construction list); exhaustive accessor x node sweep and index probes under ASan+UBSan",
+   text="Properties_C14.v proves on the regenerated tables: every get(Index) of a Sequence implementation guards its index; no const member function dereferences an unchecked pointer outside the 15 listed non-null-by-construction sites; hence for the sequence implementations of today's source get never yields undefined behaviour and is refused at or beyond size(), for all slot states (filled or never filled) and all indices; unset Optional/ref/checked links are refused; iteration visits size() elements and agrees with positional access. Dynamically every interface accessor (208 names) is read on every factory result (fresh, links unset) and every zoo node; every sequence-valued result is iterated and read at size(), size()+1, size()+10^6, max/2, max; reference sequences with unfilled slots are built directly.",
+   note="Trusted: Coq kernel, AST translator, drivers, ASan/UBSan (memory corruption they cannot see is out of reach). The allowed-dereference list is part of the statement. Genuine defect D15 (ref_sequence::get on an unfilled slot) was found by this check and repaired (fix commit f6b914c).",
+   ref="DESIGN.md §6 C14"),
  "C16": dict(
    technique="Coq proof (finite-map lemmas by induction over binding sequences) + extracted-model/implementation correspondence with an independent oracle",
    text="Subst.v: an elementary substitution maps its parameter to its value and every other parameter to itself; a general substitution built from any sequence of bindings (rebinding included) yields, for every queried parameter, the latest binding or the parameter itself, and holds one binding per parameter. The driver builds elementary and general substitutions over the parameters of two mappings and queries parameters inside and outside the domain; results are compared with the extracted model and with the finite-map oracle.",
